@@ -8,7 +8,11 @@ that one element, and the root's `fq_name()` is `/`.
   * an element under a Dict/Compound whose name is empty has no spelling at all,
   * a name ending in a backslash swallows the `/` that follows it, so nothing *below* such an
     element can be addressed (the element itself can).
-(A backslash directly before `.` or `]` inside a name used to be a third case; since b49b3eb
+  * [KeyIsName] `find` looks a step up among the *keys* of a mapping while `fq_name` prints the
+    element's *name*; they differ after a SparseDict item assignment of an instance of a renamed
+    subclass of the field schema (KF-C10-a state, KF-C13-c), so `addressable` demands
+    `key = name` of every mapping child on the way — an explicit hypothesis, not an invariant.
+(A backslash directly before `.` or `]` inside a name used to be a further case; since b49b3eb
 `fq_name` doubles that backslash and the name is read back unchanged.)
 -/
 import Flatland.Path
@@ -32,12 +36,13 @@ def endsWithBackslash (s : Str) : Bool := s.getLast? == some '\\'
     spelled: `last` = this is the final segment -/
 def addressableFrom : Node → Pos → Bool
   | _, [] => true
-  | .mk k _ kids, i :: p =>
+  | .mk k _ _ kids, i :: p =>
     match kids[i]? with
     | none => false
     | some c =>
       (k != .map ||
-        (!c.name.isEmpty && (p.isEmpty || !endsWithBackslash c.name)))
+        (c.key == c.name   -- [KeyIsName]
+          && !c.name.isEmpty && (p.isEmpty || !endsWithBackslash c.name)))
       && addressableFrom c p
 
 def addressable (root : Node) (pos : Pos) : Bool := addressableFrom root pos
